@@ -244,6 +244,7 @@ def board_family(tier, seed):
         out.append('A0 %s A1' % a)
     for a, b in itertools.product(['.', 'G0', 'G', '#'], repeat=2):
         out.append('A0 %s\n%s A1' % (a, b))                      # 2x2
+    out += ['A0 G0.G1 A1', 'A0 G1.G0 A1', 'A0 G.G1 A1', 'A0 G0.G A1', 'A0 G0.G1 . A1']      # one cell that is a goal of BOTH agents (each agent must be recognised on it)
     out += ['A0 ].G1 A1\nG0 . .', 'A0.} . G1\n. A1 G0', 'A0 ~ G\nA1.^ . .', '.  A0.u G1\nG0 A1 .', 'A0.G1 A1.G0 .', 'A0 A1.G0.G1 G']
     if tier == 'thorough':
         rnd = _random.Random(seed)
